@@ -82,7 +82,16 @@ def base_flags(cfg, gen_inc, repo=None):
             "-I" + os.path.join(repo, "src/h3lib/include")] + CONFIGS[cfg]
 
 def build(cfg="release", want=("ssa",), repo=None, extra_sources=()):
-    """Returns dict with paths: raw, ssa, inl (as requested), units, dir."""
+    """Returns dict with paths: raw, ssa, inl (as requested), units, dir.  Serialised per configuration with a file lock: checks of several
+    properties started at the same moment after a source change would otherwise remove each other's half-built cache directory."""
+    import fcntl
+    os.makedirs(WORK, exist_ok=True)
+    with open(os.path.join(WORK, cfg + ".lock"), "w") as lk:
+        fcntl.flock(lk, fcntl.LOCK_EX)
+        return _build(cfg, want, repo, extra_sources)
+
+
+def _build(cfg, want, repo, extra_sources):
     repo = repo or REPO
     t0 = time.time()
     units = lib_units(repo)
